@@ -1749,6 +1749,33 @@ class EntityTemplate(Block):
             current_ctx = ctx
             ctx.visit_objects(check_usage)
 
+            always_expr = getattr(ctx, "_always_expr", None)
+
+            if always_expr is not None:
+                # The always block of a sequential context is emitted as
+                # separate concurrent statements. Signals driven there
+                # must not be driven by the process itself.
+                always_written = IdMap()
+
+                def collect_always_written(obj, access: AccessFlags):
+                    if access is AccessFlags.WRITE or access is AccessFlags.PUSH:
+                        if isinstance(obj, Signal):
+                            always_written[obj._root] = True
+                    return obj
+
+                def check_not_always_written(obj, access: AccessFlags):
+                    if access is AccessFlags.WRITE or access is AccessFlags.PUSH:
+                        if isinstance(obj, Signal):
+                            assert obj._root not in always_written, (
+                                f"object '{obj._root}, name={obj._root.name()}' written in a sequential context"
+                                " and in the always block of that context\n"
+                                f"{ctx.source_location()}\n"
+                            )
+                    return obj
+
+                always_expr.code().visit_objects(collect_always_written)
+                ctx.code().visit_objects(check_not_always_written)
+
         for block in self.all_blocks():
             if isinstance(block, Entity):
                 port_decl = block._template._info.ports
